@@ -559,7 +559,7 @@ struct StreamActors : Family {
 		switch (r.below(8)) {
 		case 0: len = r.below(3); break;
 		case 1: len = r.below(17); break;
-		case 2: len = (thorough && r.chance(1, 4)) ? r.range(4000, 70000) : r.range(100, 600); break;
+		case 2: len = r.chance(1, thorough ? 4 : 10) ? r.range(4000, thorough ? 70000 : 20000) : r.range(100, 600); break;
 		default: len = r.below(301); break;
 		}
 		static const char* B12[] = {"mem", "mem", "memslice", "fileslice", "slice2"};
